@@ -157,6 +157,7 @@ class Interp:
         self.mul_mode = mul_mode
         self.ambiguous = False
         self.loose = 0  # extra tolerance (in output steps) the evaluated reference kernels ask for
+        self.undef = {}  # tensor index -> boolean mask of elements for which the reference defines no value (SQRT/LOG/RSQRT outside their domain)
         self.model = model
         self.sg = model["subgraphs"][0]
         self.T = self.sg["tensors"]
@@ -438,6 +439,46 @@ class Interp:
                     tabs = c19.ref_lrelu_tables(it["dtype"], si[0], int(zi[0]), so[0], int(zo[0]), opts.get("Alpha", 0.0))
                     table = np.asarray(tabs[0], I64)
             return [table[x - lo]]
+        if code in ("EXP", "LOG", "SQRT", "GELU", "RSQRT"):
+            # 8-bit: the reference populates a 256-entry table round(f(dequantised)/output scale) + zero point (float32 there, double here: one step of tolerance);
+            # RSQRT is fixed-point in the reference (value 0 -> type maximum, negative values are an error), compared against the real function with the same tolerance
+            it = T[ins[0]]
+            if it["dtype"] not in ("int8", "uint8") or ot["dtype"] != it["dtype"]:
+                raise Unsupported("%s on %s" % (code, it["dtype"]))
+            x = self.get(values, ins[0]).astype(I64)
+            si, zi = qparams(it)
+            so, zo = qparams(ot)
+            lo, hi = dtype_range(it["dtype"])
+            v = np.arange(lo, hi + 1, dtype=np.int64)
+            real = float(si[0]) * (v - int(zi[0])).astype(np.float64)
+            undefined = np.zeros(v.shape, bool)
+            with np.errstate(all="ignore"):
+                if code == "EXP":
+                    f = np.exp(np.minimum(real, 700.0))
+                elif code == "LOG":
+                    undefined = real < 0
+                    f = np.where(real > 0, np.log(np.where(real > 0, real, 1.0)), -np.inf)
+                elif code == "SQRT":
+                    undefined = real < 0
+                    f = np.sqrt(np.maximum(real, 0.0))
+                elif code == "RSQRT":
+                    undefined = real < 0
+                    f = np.where(real > 0, 1.0 / np.sqrt(np.where(real > 0, real, 1.0)), np.inf)
+                else:
+                    import math
+
+                    if opts.get("Approximate", False):
+                        f = 0.5 * real * (1 + np.tanh(math.sqrt(2 / math.pi) * (real + 0.044715 * real ** 3)))
+                    else:
+                        f = np.array([0.5 * r * (1 + math.erf(r / math.sqrt(2))) for r in real])
+                resc = np.clip(f / float(so[0]), -1e9, 1e9)
+            r = np.where(resc >= 0, np.floor(resc + 0.5), np.ceil(resc - 0.5)).astype(np.int64) + int(zo[0])
+            table = np.clip(r, lo, hi)
+            if undefined.any():
+                m = undefined[x - lo]
+                if m.any():
+                    self.undef[o["outputs"][0]] = m
+            return [table[x - lo]]
         if code == "MEAN":
             it = T[ins[0]]
             if it["dtype"] not in ("int8", "uint8"):
@@ -508,7 +549,14 @@ class Interp:
         """inputs: dict tensor index -> ndarray.  returns values: dict tensor index -> ndarray"""
         values = dict(inputs)
         for o in self.sg["ops"]:
+            masked = [i for i in o["inputs"] if i in self.undef]
             outs = self.run_op(o, values)
+            if masked:
+                # only element-wise clamps and re-shapes may consume a tensor with undefined elements: the mask travels with them
+                if o["code"] in ("RELU", "RELU6", "RELU_N1_TO_1", "RESHAPE", "SQUEEZE", "EXPAND_DIMS") and len(o["outputs"]) == 1:
+                    self.undef[o["outputs"][0]] = self.undef[masked[0]].reshape(np.asarray(outs[0]).shape)
+                else:
+                    raise Unsupported("%s consumes a tensor with elements outside the producer's domain" % o["code"])
             for t, v in zip(o["outputs"], outs):
                 values[t] = v
         return values
